@@ -1409,6 +1409,37 @@ def section_wrappers(env, ctx, model):
             ctx.disagree("block.numblocks", {"section": "wrapper", "args": [jsonable(a) for a in args], "kwargs": {k: jsonable(v) for k, v in kwargs.items()}}, nbi, nbm)
 
 
+def section_wrappers_exhaustive(env, ctx, model):
+    """exhaustive small scope of `map_func_over_blocks`: every way of passing <= 2 positional and <= 2 keyword arguments, each
+    one of {block array of 0 / 1 / 2 / 3 blocks, array, python scalar} (1 849 calls in the thorough tier,
+    250 sampled in quick): search order, `num_blocks == 0`, length check, projection of every argument"""
+    rng = ctx.rng
+    jnp, BA = env.jnp, env.BlockArray
+    if "rec" not in env.py:
+        return
+    kinds = ["B0", "B1", "B2", "B3", "arr", "num"]
+    combos = []
+    for npos in range(0, 3):
+        for nkw in range(0, 3):
+            for vals in itertools.product(kinds, repeat=npos + nkw):
+                combos.append((npos, nkw, vals))
+    if not ctx.thorough:
+        combos = [combos[int(i)] for i in rng.permutation(len(combos))[:250]]
+    counter = [0]
+
+    def mk(kind):
+        counter[0] += 1
+        c = float(counter[0] % 7 + 1)
+        if kind.startswith("B"):
+            return BA([jnp.array(c + j) for j in range(int(kind[1]))])
+        return jnp.array(c) if kind == "arr" else c
+
+    for npos, nkw, vals in combos:
+        args = [mk(k) for k in vals[:npos]]
+        kwargs = {f"k{j}": mk(k) for j, k in enumerate(vals[npos:])}
+        run_call(env, ctx, model, "wrapper-exhaustive", "map", "py:rec", env.py["rec"], env.py["rec:wrapped"], args, kwargs, f"{npos}p{nkw}k/{'-'.join(vals)}")
+
+
 def section_pytree(env, ctx, model):
     rng = ctx.rng
     jax, jnp, snp, BA = env.jax, env.jnp, env.snp, env.BlockArray
@@ -2062,7 +2093,7 @@ def correspond(ctx, model):
     timing = {}
     # the sections that evaluate the property itself on small objects come first: at most 5 violations are written out
     for sec in (run_corpus, section_history, section_setitem, section_transparency, section_trees, section_names, section_reductions, section_creation,
-                section_operators, section_nonlifted, section_methods, section_sequence, section_slices, section_setslice, section_wrappers, section_pytree, section_random):
+                section_operators, section_nonlifted, section_methods, section_sequence, section_slices, section_setslice, section_wrappers, section_wrappers_exhaustive, section_pytree, section_random):
         t0 = time.time()
         try:
             sec(env, ctx, model)
